@@ -52,6 +52,9 @@ def group_programs(rng, n):
         {"threads": [("t1", [("make", "x"), ("exit",), ("make", "x"), ("reexit",)]), ("t2", [("make", "y"), ("make", None)])]},
         {"threads": [("t1", [("make", "x"), ("make", "x")])]},
         {"threads": [("t1", [("make", None), ("make", "gw0")]), ("t2", [("make", "gw5"), ("exit",)])]},
+        # ids reserved with allocate_id() stay reserved across a terminate() of the (then empty) group
+        {"threads": [("t1", [("alloc",), ("make", None), ("terminate",), ("alloc",), ("make", None)])]},
+        {"threads": [("t1", [("make", None), ("alloc",), ("exit",), ("terminate",), ("alloc",), ("make", "gw1")])]},
         # a creation that fails (the process cannot be started) next to other automatic allocations: its id stays consumed
         {"threads": [("t1", [("make_fail", None), ("make", None)]), ("t2", [("make", None)])]},
         {"threads": [("t1", [("make_fail", None)]), ("t2", [("make", None), ("make", None)]), ("t3", [("make_fail", "x"), ("make", "x")])]},
